@@ -204,11 +204,11 @@ const FAULT_MENU: [FaultKind; 7] = [
 /// Scripted plain workloads that some sweep checks run after their generated ones.
 fn sweep_scripts(id: &str) -> Vec<(&'static str, u64, u64, ScriptFn)> {
     match id {
-        "C02" => vec![("wrap", 1000, 100_000, wrap_script)],
+        "C02" => vec![("wrap", 1000, 100_000, wrap_script), ("disconnect-given-up-then-resume", 300, 30_000, crate::scripts::disconnect_given_up_script)],
         "C05" | "C18" => vec![("many-fresh-sessions", 24, 600, crate::scripts::fresh_sessions_script)],
-        "C03" => vec![("window-saturation", 500, 50_000, crate::scripts::saturation_script), ("wrap", 400, 40_000, wrap_script)],
+        "C03" => vec![("window-saturation", 500, 50_000, crate::scripts::saturation_script), ("wrap", 400, 40_000, wrap_script), ("disconnect-given-up-then-resume", 300, 30_000, crate::scripts::disconnect_given_up_script)],
         "C16" => vec![("wrap", 300, 30_000, wrap_script), ("window-saturation", 200, 20_000, crate::scripts::saturation_script), ("ping-between-pieces", 200, 20_000, crate::scripts::ping_between_pieces_script)],
-        "C01" => vec![("ping-between-pieces", 200, 20_000, crate::scripts::ping_between_pieces_script), ("wrap", 400, 40_000, wrap_script)],
+        "C01" => vec![("ping-between-pieces", 200, 20_000, crate::scripts::ping_between_pieces_script), ("wrap", 400, 40_000, wrap_script), ("disconnect-given-up-then-resume", 300, 30_000, crate::scripts::disconnect_given_up_script)],
         "C11" => vec![("partial-then-disconnect", 300, 30_000, crate::scripts::c11_script)],
         _ => vec![],
     }
@@ -223,6 +223,7 @@ impl SweepCheck {
             let mut d = WithEpilogue::new(Script::new(steps), self.epilogue_polls);
             d.round_trip = self.round_trip;
             d.tight_limits = self.id == "C16";
+            d.redeliver = self.id == "C16";
             let (mut log, world) = run_case(&cfg, seed, &mut d, n + self.epilogue_polls + 32);
             log.epilogue = true;
             log.epilogue_from = d.from_step;
@@ -249,6 +250,7 @@ impl SweepCheck {
             let mut d = WithEpilogue::new(g, self.epilogue_polls);
             d.round_trip = self.round_trip;
             d.tight_limits = self.id == "C16";
+            d.redeliver = self.id == "C16";
             d.force_fresh = fresh;
             d.fresh_small_window = small;
             let (mut log, world) = run_case(&cfg, seed, &mut d, max_steps + self.epilogue_polls + 32);
@@ -968,7 +970,7 @@ pub fn all() -> Vec<Box<dyn Check>> {
         level: "exploration",
         rule: "every accepted PUBLISH(QoS>0)/SUBSCRIBE/UNSUBSCRIBE must get an identifier that is non-zero and not used by any request still awaiting its final acknowledgement (reference in-use set rebuilt from consumed acks). Workloads: scripted wrap histories (1-3 long-lived requests whose acknowledgement is withheld, the 16-bit counter brought to 65532..65535 either through the verif setter or by really burning up to 65535 identifiers through refused publishes, then 6-12 further allocations across the wrap with identifiers burnt in between) and random histories. Non-trivial iff an allocation happened next to the wrap point (counter < 8 or > 65000) while at least one identifier was in use.",
         assumptions: COMMON_ASSUME.to_vec(),
-        workloads: vec![("wrap", 1500, 600_000, Source::Script(wrap_script)), ("replay-heavy", 2000, 600_000, Source::Gen(replay_heavy)), ("general", 2000, 600_000, Source::Gen(general)), ("window-saturation", 500, 100_000, Source::Script(crate::scripts::saturation_script)), ("flush-fault-then-wrap", 300, 30_000, Source::Script(crate::scripts::c07_flush_fault_script))],
+        workloads: vec![("wrap", 1500, 600_000, Source::Script(wrap_script)), ("replay-heavy", 2000, 600_000, Source::Gen(replay_heavy)), ("general", 2000, 600_000, Source::Gen(general)), ("window-saturation", 500, 100_000, Source::Script(crate::scripts::saturation_script)), ("flush-fault-then-wrap", 300, 30_000, Source::Script(crate::scripts::c07_flush_fault_script)), ("smaller-limit-then-wrap", 300, 30_000, Source::Script(crate::scripts::c07_smaller_limit_script))],
         monitor: m::c07::check,
         max_steps: 70,
         epilogue_polls: 0,
@@ -1079,7 +1081,7 @@ pub fn all() -> Vec<Box<dyn Check>> {
         level: "exploration",
         rule: concat!("status of every operation handle is queried after every step and compared with a reference model (pending until the final ack was consumed in the issuing session, invalidated once a fresh-session CONNACK was consumed); failure codes must surface as Rejected from the consuming call. Non-trivial iff a status transition was observed.", " Workload `wrap`: the identifier counter wraps with older operations outstanding (C07's script), so that handles are queried while the in-flight lists are not in identifier order."),
         assumptions: COMMON_ASSUME.to_vec(),
-        workloads: vec![("acks-heavy", 4000, 2_000_000, Source::Gen(acks_heavy)), ("general", 2000, 1_000_000, Source::Gen(general)), ("wrap", 600, 300_000, Source::Script(wrap_script)), ("window-saturation", 400, 40_000, Source::Script(crate::scripts::saturation_script)), ("tiny-limit", 200, 20_000, Source::Script(crate::scripts::c18_script))],
+        workloads: vec![("acks-heavy", 4000, 2_000_000, Source::Gen(acks_heavy)), ("general", 2000, 1_000_000, Source::Gen(general)), ("wrap", 600, 300_000, Source::Script(wrap_script)), ("window-saturation", 400, 40_000, Source::Script(crate::scripts::saturation_script)), ("tiny-limit", 200, 20_000, Source::Script(crate::scripts::c18_script)), ("many-fresh-sessions", 24, 600, Source::Script(crate::scripts::fresh_sessions_script))],
         monitor: m::c18::check,
         max_steps: 70,
         epilogue_polls: 0,
